@@ -1,4 +1,355 @@
 package main
 
-func runSelftests(p *Property) map[string]interface{} { return nil }
-func cmdSelftest(args []string) int                  { return 0 }
+// Thorough tier: mutation self-test by overlay. Every stored change that is known to break the property — the seeded changes
+// under /verif/seeded (made by independent sub-agents) and the reversals of the `fix:` commits under /verif/selftest — is applied
+// in memory (packages.Config.Overlay: nothing is written, /repo is not copied) and the property's rules are run on the variant.
+// The result is recorded in the evidence. It is informational: a change that no longer applies to the current tree is `skipped`;
+// a change that applies and is not flagged is listed as `missed` and printed, but the verdict on /repo comes from /repo alone.
+
+import (
+	"encoding/json"
+	"fmt"
+	"os"
+	"path/filepath"
+	"regexp"
+	"runtime"
+	"sort"
+	"strings"
+)
+
+type mutant struct {
+	Name     string
+	Patch    string
+	Expected []string // rule ids expected to flag it (may be empty)
+	What     string
+}
+
+type hunk struct {
+	oldStart int
+	old, new []string
+}
+
+// parsePatch: unified diff → file → hunks
+func parsePatch(text string) (map[string][]hunk, error) {
+	out := map[string][]hunk{}
+	var file string
+	var cur *hunk
+	flush := func() {
+		if cur != nil && file != "" {
+			out[file] = append(out[file], *cur)
+		}
+		cur = nil
+	}
+	reHunk := regexp.MustCompile(`^@@ -(\d+)(?:,\d+)? \+\d+(?:,\d+)? @@`)
+	for _, l := range strings.Split(text, "\n") {
+		switch {
+		case strings.HasPrefix(l, "diff --git "):
+			flush()
+			file = ""
+		case strings.HasPrefix(l, "--- "):
+			if strings.Contains(l, "/dev/null") {
+				return nil, fmt.Errorf("patch creates a file")
+			}
+		case strings.HasPrefix(l, "+++ "):
+			flush()
+			f := strings.TrimPrefix(l, "+++ ")
+			if f == "/dev/null" {
+				return nil, fmt.Errorf("patch deletes a file")
+			}
+			file = strings.TrimPrefix(f, "b/")
+		case reHunk.MatchString(l):
+			flush()
+			m := reHunk.FindStringSubmatch(l)
+			n := 0
+			fmt.Sscanf(m[1], "%d", &n)
+			cur = &hunk{oldStart: n}
+		case cur != nil && strings.HasPrefix(l, "+"):
+			cur.new = append(cur.new, l[1:])
+		case cur != nil && strings.HasPrefix(l, "-"):
+			cur.old = append(cur.old, l[1:])
+		case cur != nil && strings.HasPrefix(l, " "):
+			cur.old = append(cur.old, l[1:])
+			cur.new = append(cur.new, l[1:])
+		case cur != nil && l == "":
+			// blank context line whose leading space was stripped, or the end of the patch
+			cur.old = append(cur.old, "")
+			cur.new = append(cur.new, "")
+		}
+	}
+	flush()
+	// drop trailing blank pseudo-context produced by the final newline
+	for f, hs := range out {
+		for i := range hs {
+			for len(hs[i].old) > 0 && len(hs[i].new) > 0 && hs[i].old[len(hs[i].old)-1] == "" && hs[i].new[len(hs[i].new)-1] == "" {
+				hs[i].old = hs[i].old[:len(hs[i].old)-1]
+				hs[i].new = hs[i].new[:len(hs[i].new)-1]
+			}
+		}
+		out[f] = hs
+	}
+	return out, nil
+}
+
+func applyHunks(content string, hs []hunk) (string, bool) {
+	lines := strings.Split(content, "\n")
+	shift := 0
+	for _, h := range hs {
+		want := h.oldStart - 1 + shift
+		match := func(at int) bool {
+			if at < 0 || at+len(h.old) > len(lines) {
+				return false
+			}
+			for i, o := range h.old {
+				if lines[at+i] != o {
+					return false
+				}
+			}
+			return true
+		}
+		at := -1
+		for d := 0; d <= len(lines); d++ {
+			if match(want + d) {
+				at = want + d
+				break
+			}
+			if match(want - d) {
+				at = want - d
+				break
+			}
+		}
+		if at < 0 {
+			return "", false
+		}
+		nl := append([]string{}, lines[:at]...)
+		nl = append(nl, h.new...)
+		nl = append(nl, lines[at+len(h.old):]...)
+		lines = nl
+		shift += len(h.new) - len(h.old)
+	}
+	return strings.Join(lines, "\n"), true
+}
+
+func overlayFor(repo, patch string) (map[string][]byte, error) {
+	files, err := parsePatch(patch)
+	if err != nil {
+		return nil, err
+	}
+	ov := map[string][]byte{}
+	for f, hs := range files {
+		abs := filepath.Join(repo, f)
+		b, err := os.ReadFile(abs)
+		if err != nil {
+			return nil, fmt.Errorf("%s: %v", f, err)
+		}
+		s, ok := applyHunks(string(b), hs)
+		if !ok {
+			return nil, fmt.Errorf("%s: hunk context not found", f)
+		}
+		ov[abs] = []byte(s)
+	}
+	return ov, nil
+}
+
+var reRuleID = regexp.MustCompile(`\b[A-Z][0-9]{1,2}\b`)
+
+func mutantsFor(prop string) []mutant {
+	vdir := verifDir()
+	var out []mutant
+	// seeded changes
+	metas, _ := filepath.Glob(filepath.Join(vdir, "seeded", "*", "meta.json"))
+	sort.Strings(metas)
+	for _, mp := range metas {
+		b, err := os.ReadFile(mp)
+		if err != nil {
+			continue
+		}
+		var m struct {
+			Property string `json:"property"`
+			Change   string `json:"change"`
+			CaughtBy string `json:"caught_by"`
+		}
+		if json.Unmarshal(b, &m) != nil {
+			continue
+		}
+		// a seed is relevant to the property it was made for and to every property named in caught_by
+		rel := m.Property == prop || strings.Contains(m.CaughtBy, prop)
+		if !rel {
+			continue
+		}
+		pb, err := os.ReadFile(filepath.Join(filepath.Dir(mp), "patch.diff"))
+		if err != nil {
+			continue
+		}
+		cb := m.CaughtBy
+		if i := strings.Index(cb, "("); i > 0 {
+			cb = cb[:i]
+		}
+		out = append(out, mutant{Name: "seeded/" + filepath.Base(filepath.Dir(mp)), Patch: string(pb), Expected: reRuleID.FindAllString(cb, -1), What: m.Change})
+	}
+	// reversals of fix commits recorded for this property
+	known, _ := loadKnown(vdir)
+	byCommit := map[string]*mutant{}
+	var order []string
+	for _, k := range known {
+		if k.Status != "fixed" || k.Property != prop || k.Commit == "" {
+			continue
+		}
+		mu := byCommit[k.Commit]
+		if mu == nil {
+			pb, err := os.ReadFile(filepath.Join(vdir, "selftest", "revert-"+k.Commit+".diff"))
+			if err != nil {
+				continue
+			}
+			mu = &mutant{Name: "revert-" + k.Commit, Patch: string(pb), What: "reversal of fix " + k.Commit + ": " + k.What}
+			byCommit[k.Commit] = mu
+			order = append(order, k.Commit)
+		}
+		has := false
+		for _, e := range mu.Expected {
+			if e == k.Rule {
+				has = true
+			}
+		}
+		if !has {
+			mu.Expected = append(mu.Expected, k.Rule)
+		}
+	}
+	for _, c := range order {
+		out = append(out, *byCommit[c])
+	}
+	// hand-written single-edit variants
+	hand, _ := filepath.Glob(filepath.Join(vdir, "selftest", "hand-*.diff"))
+	sort.Strings(hand)
+	for _, hp := range hand {
+		b, err := os.ReadFile(hp)
+		if err != nil {
+			continue
+		}
+		// header line: "# property=C14 rules=H2 what=…"
+		first := strings.SplitN(string(b), "\n", 2)[0]
+		if !strings.HasPrefix(first, "#") || !strings.Contains(first, "property="+prop) {
+			continue
+		}
+		mu := mutant{Name: strings.TrimSuffix(filepath.Base(hp), ".diff"), Patch: string(b)}
+		if i := strings.Index(first, "rules="); i >= 0 {
+			mu.Expected = reRuleID.FindAllString(strings.Fields(first[i+6:])[0], -1)
+		}
+		if i := strings.Index(first, "what="); i >= 0 {
+			mu.What = first[i+5:]
+		}
+		out = append(out, mu)
+	}
+	return out
+}
+
+type oblID struct{ rule, key, status string }
+
+func bad(st string) bool { return st == Violation || st == Undecided }
+
+func runPropertyRules(c *Ctx, p *Property) []Obl {
+	var all []Obl
+	for _, id := range p.Rules {
+		r := ruleByID(id)
+		if r == nil {
+			continue
+		}
+		obls := runRule(c, r)
+		if p.Filter != nil {
+			obls = p.Filter(id, obls)
+		}
+		all = append(all, obls...)
+	}
+	return all
+}
+
+func runSelftests(p *Property, prop string, baseline []Obl) map[string]interface{} {
+	base := map[oblID]bool{}
+	for _, o := range baseline {
+		base[oblID{o.Rule, o.Key, o.Status}] = true
+	}
+	var results []map[string]interface{}
+	nApplied, nFlagged, nSkipped := 0, 0, 0
+	var missed []string
+	for _, mu := range mutantsFor(prop) {
+		res := map[string]interface{}{"mutant": mu.Name, "what": mu.What, "expected_rules": mu.Expected}
+		ov, err := overlayFor(repoDir(), mu.Patch)
+		if err != nil {
+			res["outcome"] = "skipped"
+			res["reason"] = "does not apply to the current tree: " + err.Error()
+			nSkipped++
+			results = append(results, res)
+			continue
+		}
+		c := NewCtx(repoDir())
+		c.Overlay = ov
+		c.Load()
+		if len(c.LoadErr) > 0 {
+			res["outcome"] = "skipped"
+			res["reason"] = "variant does not type-check: " + firstLines(c.LoadErr[0], 1)
+			nSkipped++
+			results = append(results, res)
+			continue
+		}
+		nApplied++
+		by := map[string]bool{}
+		var first string
+		for _, o := range runPropertyRules(c, p) {
+			if bad(o.Status) && !base[oblID{o.Rule, o.Key, o.Status}] {
+				by[o.Rule] = true
+				if first == "" {
+					first = fmt.Sprintf("%s %s [%s]", o.Rule, o.Key, o.Pos)
+				}
+			}
+		}
+		var rules []string
+		for r := range by {
+			rules = append(rules, r)
+		}
+		sort.Strings(rules)
+		if len(rules) > 0 {
+			res["outcome"] = "flagged"
+			res["flagged_by"] = rules
+			res["first_report"] = first
+			nFlagged++
+		} else {
+			res["outcome"] = "missed"
+			missed = append(missed, mu.Name)
+		}
+		results = append(results, res)
+		c = nil
+		runtime.GC()
+	}
+	for _, m := range missed {
+		fmt.Printf("SELFTEST-MISS property=%s %s applies to the current tree but no rule of the property reports it\n", prop, m)
+	}
+	return map[string]interface{}{
+		"method":  "each stored breaking change is applied in memory (go/packages overlay) and the property's rules are re-run on the variant; a report that is not in the baseline run counts as flagged",
+		"applied": nApplied, "flagged": nFlagged, "skipped": nSkipped, "missed": missed, "variants": results,
+	}
+}
+
+func cmdSelftest(args []string) int {
+	ids := args
+	if len(ids) == 0 {
+		for id := range properties {
+			ids = append(ids, id)
+		}
+		sort.Strings(ids)
+	}
+	rc := 0
+	for _, id := range ids {
+		p := properties[id]
+		if p == nil {
+			continue
+		}
+		c := NewCtx(repoDir())
+		c.Load()
+		basel := runPropertyRules(c, p)
+		r := runSelftests(p, id, basel)
+		fmt.Printf("%s: applied=%v flagged=%v skipped=%v missed=%v\n", id, r["applied"], r["flagged"], r["skipped"], r["missed"])
+		if len(r["missed"].([]string)) > 0 {
+			rc = 1
+		}
+	}
+	return rc
+}
